@@ -28,7 +28,7 @@ theorem padField_spec (front : Bool) (n k : Nat) : ∀ (f : Field) (s : St) (f' 
       · simp at h
       · rename_i ob hob
         split at h
-        · simp at h
+        · split at h <;> simp at h
         · split at h
           · simp at h
           · rename_i o' s1 hr1
